@@ -8,6 +8,10 @@ from gen import htmlgen
 logging.getLogger('web_monitoring_diff.html_render_diff').setLevel(logging.CRITICAL + 1)
 
 HAND_PAIRS = [
+    # an embedded element with tail text deleted while the structure around it changes (a deletion branch that is never completed)
+    ('<p>Intro words</p><h1>Search results</h1><div class="pager"><select name="n"><option>10</option><option>20</option></select> per page</div><p>Footer words here</p>',
+     '<p>Intro words</p><span>Search results</span><p>Footer words here</p>'),
+    ('<p>Intro words</p><h2>Figure</h2><div><svg width="4"><circle r="2"></circle></svg> caption text</div><p>Footer</p>', '<p>Intro words</p><b>Figure</b><p>Footer</p>'),
     ('<ul><li>one</li><script>track("old")</script><li>two</li></ul>', '<ul><li>one</li><li>two</li></ul>'),      # active elements directly in a list
     ('<ul><li>one</li><script>track("old")</script><li>two</li></ul>', '<ul><li>one</li><script>track("new")</script><li>two</li></ul>'),
     ('<ol><style>li { color: red }</style><li>a</li></ol><dl><script>var d</script><dt>t</dt><dd>d</dd></dl>', '<ol><li>a</li></ol><dl><dt>t</dt><dd>d</dd></dl>'),
